@@ -6,6 +6,7 @@ mod m_lex;
 mod m_parse;
 mod m_sema;
 mod m_symtab;
+mod m_tree;
 mod m_types;
 
 use std::io::{self, BufRead, Write};
@@ -33,6 +34,7 @@ fn main() {
         "symtab" => m_symtab::line,
         "lex" => m_lex::line,
         "parse" => m_parse::line,
+        "tree" => m_tree::line,
         "ast" => m_ast::line,
         "sema" => m_sema::line,
         "uclass" => m_lex::uclass,
